@@ -1519,3 +1519,42 @@ fn inject_define_component_option(call: &mut CallExpr, name: &'static str, value
         }
     }
 }
+
+/// Verification hooks: thin public wrappers around crate-private pure helpers.
+/// Compiled only with `--cfg vjx_verif`; nothing here changes behaviour.
+#[cfg(vjx_verif)]
+pub mod verif_hooks {
+    use swc_core::{
+        common::DUMMY_SP,
+        ecma::{ast::*, utils::quote_ident},
+    };
+
+    pub fn transform_text(text: &str) -> String {
+        crate::util::transform_text(text)
+    }
+
+    pub fn is_on(attr_name: &str) -> bool {
+        crate::util::is_on(attr_name)
+    }
+
+    pub fn is_directive_name(attr_name: &str) -> bool {
+        let name = match attr_name.split_once(':') {
+            Some((ns, name)) => JSXAttrName::JSXNamespacedName(JSXNamespacedName {
+                span: DUMMY_SP,
+                ns: quote_ident!(ns),
+                name: quote_ident!(name),
+            }),
+            None => JSXAttrName::Ident(quote_ident!(attr_name)),
+        };
+        crate::directive::is_directive(&JSXAttr {
+            span: DUMMY_SP,
+            name,
+            value: None,
+        })
+    }
+
+    pub fn known_tag(name: &str) -> bool {
+        css_dataset::tags::STANDARD_HTML_TAGS.contains(name)
+            || css_dataset::tags::SVG_TAGS.contains(name)
+    }
+}
